@@ -5,6 +5,7 @@ Property theorems only.
 import Ufw.Model.Slip
 import Ufw.Spec.Slip
 import Ufw.Lemmas.Slip
+import Ufw.Lemmas.SlipEp
 
 namespace Ufw.Props.C12
 open Ufw Ufw.Model.Slip Ufw.Lemmas.Slip
@@ -309,5 +310,26 @@ example : (run true .searchEnd false [] ([0x01#8] ++ enc true [0x41#8] ++ enc tr
     = [.illegal [], .frame [0x42#8]] := by decide
 example : (run false .searchEnd false [] ([0x01#8, 0xc0#8] ++ enc false [0x41#8] ++ enc false [0x42#8])).1
     = [.frame [0x41#8], .frame [0x42#8]] := by decide
+
+/-! ### the encoder over the endpoint layer -/
+
+/-- The encoder on top of endpoint drivers that only fragment their transfers (a transfer of one or more
+    octets per driver call, octet- or chunk-style, on the source and on the sink side): `rfc1055_encode`
+    succeeds, reads the whole stream, and the sink has received exactly the RFC 1055 frame - both octets of
+    every escape sequence included, however little room a single driver call offers. -/
+theorem encode_over_fragmenting_drivers (fuel : Nat) (hf : 2 ≤ fuel) (sof : Bool)
+    (src : Ufw.Model.Endpoints.Src) (snk : Ufw.Model.Endpoints.Snk)
+    (hps : Ufw.Lemmas.SlipEp.Plain src.script) (hpk : Ufw.Lemmas.SlipEp.Plain snk.script) :
+    (Ufw.Model.SlipEp.rfc1055_encode fuel sof src snk).1 = .ok 0 ∧
+    (Ufw.Model.SlipEp.rfc1055_encode fuel sof src snk).2.2.got = snk.got ++ Spec.Slip.frame sof src.stream ∧
+    (Ufw.Model.SlipEp.rfc1055_encode fuel sof src snk).2.1.stream = [] := by
+  rw [← enc_eq_rfc]
+  exact Ufw.Lemmas.SlipEp.encode_plain fuel hf sof src snk hps hpk
+
+-- the hypotheses are met by a sink that takes one octet per call and a source that delivers two at most
+example : Ufw.Lemmas.SlipEp.Plain [.xfer 1, .xfer 1, .xfer 2] := by
+  intro st hs
+  simp only [List.mem_cons, List.not_mem_nil, or_false] at hs
+  rcases hs with rfl | rfl | rfl <;> exact ⟨_, rfl, by omega⟩
 
 end Ufw.Props.C12
